@@ -125,10 +125,11 @@ def runMajor (fix : Bool) (dec : Bytes → Res (V × Bool × Bytes)) (lf : Nat) 
       | .err e => .err e
       | .ok (kvs, r) => .ok (.map kvs, false, r)
   else if typ = majorTypeSematic then
-    -- tag + nested value; `.value | tovalue` of a tagged item is the decode tree, not a JSON-like value
+    -- d.FieldValueUint("tag", count); d.FieldStruct("value", …): a tagged item of the decode tree
+    -- (`.value | tovalue` of it is the tree as JSON, not a JSON-like value: `torepr` answers `unmodelled`)
     match elem bs1 with
     | .err e => .err e
-    | .ok _ => .err .unmodelled
+    | .ok (v, r) => .ok (.tagged count v, false, r)
   else
     -- majorTypeSpecialFloat, cbor.go:228-249
     if sc = shortCountSpecialFalse then .ok (.bool false, false, bs1)
@@ -184,6 +185,7 @@ inductive W where
   | f64 (bits : Nat)
   | undefined                     -- 0xf7: no `value` field, torepr gives null
   | simple (n : Nat)              -- 0xe0+n, n < 20 (unassigned simple values): null as well
+  | tag (h : Head) (t : Nat) (x : W)   -- semantic tag (major type 6)
 deriving Repr, Inhabited
 
 def headOk : Head → Nat → Bool
@@ -240,6 +242,7 @@ def valid : W → Bool
   | .f64 b => decide (b < 2^64)
   | .undefined => true
   | .simple n => decide (n < 20)
+  | .tag h t x => headOk h t && valid x
 def validL : List W → Bool
   | [] => true
   | x :: xs => valid x && validL xs
@@ -260,6 +263,7 @@ def noIndefStr : W → Bool
   | .arrI xs => noIndefStrL xs
   | .map _ kvs => noIndefStrKV kvs
   | .mapI kvs => noIndefStrKV kvs
+  | .tag _ _ x => noIndefStr x
   | _ => true
 def noIndefStrL : List W → Bool
   | [] => true
@@ -267,6 +271,23 @@ def noIndefStrL : List W → Bool
 def noIndefStrKV : List (W × W) → Bool
   | [] => true
   | (k, v) :: r => noIndefStr k && noIndefStr v && noIndefStrKV r
+end
+
+mutual
+/-- no semantic tag anywhere: the wire trees whose `torepr` is a JSON-like value -/
+def noTag : W → Bool
+  | .tag _ _ _ => false
+  | .arr _ xs => noTagL xs
+  | .arrI xs => noTagL xs
+  | .map _ kvs => noTagKV kvs
+  | .mapI kvs => noTagKV kvs
+  | _ => true
+def noTagL : List W → Bool
+  | [] => true
+  | x :: xs => noTag x && noTagL xs
+def noTagKV : List (W × W) → Bool
+  | [] => true
+  | (k, v) :: r => noTag k && noTag v && noTagKV r
 end
 
 mutual
@@ -287,6 +308,7 @@ def value : W → V
   | .f64 b => .float b
   | .undefined => .null
   | .simple _ => .null
+  | .tag _ t x => .tagged t (value x)
 def valueL : List W → List V
   | [] => []
   | x :: xs => value x :: valueL xs
@@ -313,6 +335,7 @@ def encode : W → Bytes
   | .f64 b => byte 0xfb :: toBE 8 b
   | .undefined => [byte 0xf7]
   | .simple n => [byte (0xe0 + n)]
+  | .tag h t x => encHead 6 h t ++ encode x
 def encodeL : List W → Bytes
   | [] => []
   | x :: xs => encode x ++ encodeL xs
@@ -336,6 +359,7 @@ def canon : V → W
   | .bytes b => .bytes (smallestHead b.length) b
   | .arr xs => .arr (smallestHead xs.length) (canonL xs)
   | .map kvs => .map (smallestHead kvs.length) (canonKV kvs)
+  | .tagged _ _ => .null
 def canonL : List V → List W
   | [] => []
   | x :: xs => canon x :: canonL xs
@@ -361,6 +385,7 @@ def inDomain : V → Bool
   | .bytes b => decide (b.length < 2^60)
   | .arr xs => decide (xs.length < 2^64) && inDomainL xs
   | .map kvs => decide (kvs.length < 2^64) && inDomainKV kvs && nodupB (vKeysOf kvs)
+  | .tagged _ _ => false
 def inDomainL : List V → Bool
   | [] => true
   | x :: xs => inDomain x && inDomainL xs
